@@ -156,6 +156,43 @@ def run(ctx, rep):
         if not ok:
             rep.violation('S3', vkey('S3', FE.name, 'add_existing', ''), FE.loc(FE.span),
                           'existing short names are not recorded in the generator while the directory is scanned')
+    # S3.chk: a checksum-form entry only blocks a numeric tail when its checksum digits equal the generator's current
+    # checksum (otherwise changing the checksum in next_iteration could never free a tail and the retry loop would
+    # not end): the bitmap update is control-dependent on a comparison with self.chksum
+    PC = facts.fns.get('fatfs::dir::ShortNameGenerator::check_for_short_prefix_collision')
+    if PC is None:
+        rep.machinery('ANCHOR-MISSING check_for_short_prefix_collision')
+    else:
+        from analyses import switch_source, edge_dominates
+        dd = Deps(PC)
+        stores = [bi for bi in PC.reachable() for s_ in PC.blocks[bi]['stmts']
+                  if s_['k'] == 'assign' and s_['lhs']['p'] and
+                  [e.get('n') for e in s_['lhs']['p'] if 'f' in e][-1:] == ['prefix_chksum_bitmap']]
+        ok = bool(stores)
+        for sb in stores:
+            guarded = False
+            for bi in PC.reachable():
+                tt = PC.blocks[bi]['term']
+                if tt['k'] != 'switch':
+                    continue
+                src = switch_source(PC, bi)
+                if not src:
+                    continue
+                toks = set()
+                if src['kind'] == 'binop':
+                    toks = dd.of_operand(src['a']) | dd.of_operand(src['b'])
+                elif src['kind'] == 'call':
+                    for a in src['term']['args']:
+                        toks |= dd.of_operand(a)
+                if ('field', 'chksum') in toks and any(edge_dominates(PC, {(bi, x)}, sb) for x in PC.succ(bi)):
+                    guarded = True
+            ok = ok and guarded
+        rep.oblige('S3.chk', PC.name, ok=ok, nontrivial=True)
+        if not ok:
+            rep.violation('S3', vkey('S3', PC.name, 'checksum-compare', ''), PC.loc(PC.span),
+                          'a checksum-form short name marks its numeric tail as taken without its checksum digits being '
+                          'compared with the generator\'s checksum: once the tails of one checksum are taken no later '
+                          'checksum can free them and alias generation cannot finish')
     G = facts.fns.get('fatfs::dir::ShortNameGenerator::generate')
     if G is None:
         rep.machinery('ANCHOR-MISSING ShortNameGenerator::generate')
